@@ -31,12 +31,32 @@ def scenario(n, path, rstack, drops, again):
             out["cfg"] = True
             if again:
                 out["n2"] = len(w.ncp.rx_frames)
-                await w.ezsp.reset()
-                out["ev_after_reset"] = w.ezsp.ezsp_version
-                out["hv_after_reset"] = w.ezsp._protocol.VERSION
-                await w.ezsp.version()
-                out["ev2"] = w.ezsp.ezsp_version
-                out["hv2"] = w.ezsp._protocol.VERSION
+                out["w2"] = len([1 for d, b in w.wire_log if d == "h2n"])
+                if again == "lost":
+                    # the acknowledgement of a reset is lost: that reset fails (times out); the next one must work
+                    w.ncp.drop_next_tx = 1
+                    try:
+                        await w.ezsp.reset()
+                        out["lost_reset"] = "completed"
+                    except BaseException as e:  # noqa: BLE001
+                        out["lost_reset"] = type(e).__name__
+                    out["n2"] = len(w.ncp.rx_frames)
+                    out["w2"] = len([1 for d, b in w.wire_log if d == "h2n"])
+                if again in ("startup", "lost"):
+                    # the way ControllerApplication._reset does it
+                    w.ezsp.stop_ezsp()
+                    await w.ezsp.startup_reset()
+                    out["ev2"] = w.ezsp.ezsp_version
+                    out["hv2"] = w.ezsp._protocol.VERSION
+                    await w.ezsp.write_config({})
+                    out["ev_after_reset"] = out["hv_after_reset"] = 4  # not observable in between on this path
+                else:
+                    await w.ezsp.reset()
+                    out["ev_after_reset"] = w.ezsp.ezsp_version
+                    out["hv_after_reset"] = w.ezsp._protocol.VERSION
+                    await w.ezsp.version()
+                    out["ev2"] = w.ezsp.ezsp_version
+                    out["hv2"] = w.ezsp._protocol.VERSION
                 await w.ezsp.getEui64()
             return True
 
@@ -85,6 +105,9 @@ def oracle(n, path, rstack, drops, again, o):
         return "a second version query was sent although the versions agree"
     if again:
         k = o["n2"]
+        if RST not in b"".join(o["wire_h2n"][o["w2"]:o["w2"] + 2]):
+            return (f"a later reset ({again}) did not perform the ASH reset handshake: first writes after it was requested "
+                    f"{[hx(b) for b in o['wire_h2n'][o['w2']:o['w2'] + 2]]}")
         if o["ev_after_reset"] != 4 or o["hv_after_reset"] != 4:
             return f"after a later reset the handler did not fall back to the legacy format (version {o['ev_after_reset']}/{o['hv_after_reset']})"
         if len(fr) <= k or fr[k][1:] != bytes([0, 0, 4]):
@@ -103,6 +126,11 @@ def cases(ctx):
         cs.append((n, "socket://127.0.0.1:6638", "late", (0, 0), False))
         cs.append((n, "socket://127.0.0.1:6638", None, (0, 0), False))
     for n in versions:
+        for path, rstack in (("/dev/ttyUSB0", None), ("socket://127.0.0.1:6638", "early"), ("socket://127.0.0.1:6638", None)):
+            if n in (4, 7, 8, 13, 14, 15) or ctx.tier == "thorough":
+                cs.append((n, path, rstack, (0, 0), "startup"))
+                cs.append((n, path, rstack, (0, 0), "lost"))
+    for n in versions:
         for rx in range(0, ctx.n(4, 7)):
             for tx in range(0, ctx.n(4, 7)):
                 if (rx, tx) != (0, 0):
@@ -114,7 +142,7 @@ def run(ctx):
     logging.disable(logging.CRITICAL)
     cs = cases(ctx)
     outs = [scenario(*c) for c in cs]
-    model = ctx.driver([f"c09 {'again' if c[4] else 'neg'} {c[0]}" for c in cs])
+    model = ctx.driver([f"c09 {'again' if c[4] else 'neg'} {c[0]}" for c in cs])  # the model's renegotiation is the same for every kind of later reset
     model1 = ctx.driver([f"c09 neg {c[0]}" for c in cs])
     for i, (c, o) in enumerate(zip(cs, outs)):
         n, path, rstack, drops, again = c
@@ -145,7 +173,7 @@ def run(ctx):
                 ctx.corr_diff(f"write_config against NCP v{n}: implementation raised KeyError, model finds a default list", {"n": n}, o["result"], model1[i])
         if i % 60 == 0:
             ctx.sample({"case": list(map(str, c)), "result": o["result"], "frames": o["frames"][:3], "ev": o.get("ev1"), "hv": o.get("hv1")})
-    ctx.cov["rule"] = ("NCP protocol versions 4..14, 15, 16, 255 x {serial path; socket path with the spontaneous start-up RSTACK early / late / absent} with a later reset and renegotiation, "
+    ctx.cov["rule"] = ("NCP protocol versions 4..14, 15, 16, 255 x {serial path; socket path with the spontaneous start-up RSTACK early / late / absent} with a later reset and renegotiation (EZSP.reset + version; stop_ezsp + startup_reset + write_config; the same after a reset whose acknowledgement was lost), "
                        "and link faults during bring-up (the NCP loses the first 0..2 (0..5 thorough) frames in each direction); every run is a full connect + startup_reset + write_config of the real stack")
     ctx.exhaustive = True
 
